@@ -20,6 +20,7 @@ import Pamiq.Model.TorchSyncDriver
 import Pamiq.Model.PersistDriver
 import Pamiq.Model.SysDataDriver
 import Pamiq.Model.TorchTrainerDriver
+import Pamiq.Model.TickDriver
 open Pamiq
 
 structure DState where
@@ -62,6 +63,7 @@ def handle (st : DState) (line : String) : DState × String :=
   | "clock" :: rest =>
     let (c, out) := Clock.drive st.clockVariant st.clock rest
     ({ st with clock := c }, out)
+  | "tick" :: rest => (st, Tick.drive rest)
   | "proto" :: rest =>
     let (p, out) := Proto.drive st.proto rest
     ({ st with proto := p }, out)
